@@ -5,6 +5,61 @@ package jd
 func init() {
 	vHarnesses["VerifC12Merge"] = VerifC12Merge
 	vHarnesses["VerifC12Canary"] = VerifC12Canary
+	vHarnesses["VerifC12Deep"] = VerifC12Deep
+}
+
+// vSmallPatchObj: object over keys a,b,c, each absent / null / number / {}.
+func vSmallPatchObj() jsonObject {
+	o := jsonObject{}
+	for _, k := range []string{"a", "b", "c"} {
+		switch vChoice(4) {
+		case 1:
+			o[k] = jsonNull(nil)
+		case 2:
+			o[k] = vNum()
+		case 3:
+			o[k] = jsonObject{}
+		}
+	}
+	return o
+}
+
+// VerifC12Deep: a small patch object below a chain of keys of every length up to DEPTH, against
+// a target that has the same chain (with a small object at the end), a shorter chain, or nothing.
+func VerifC12Deep() {
+	depth := vChoice(vParam("DEPTH", 7) + 1)
+	var p JsonNode = vSmallPatchObj()
+	var t JsonNode = vSmallObj()
+	tdepth := depth
+	switch vChoice(3) {
+	case 1:
+		tdepth = depth / 2
+		t = vNum()
+	case 2:
+		tdepth = 0
+		t = jsonObject{}
+	}
+	for i := 0; i < depth; i++ {
+		p = jsonObject{"p": p}
+	}
+	for i := 0; i < tdepth; i++ {
+		t = jsonObject{"p": t}
+	}
+	if vKnown("merge.rootempty") {
+		if po, ok := p.(jsonObject); ok && len(po) == 0 {
+			_, tIsObj := t.(jsonObject)
+			vAssume(tIsObj)
+		}
+	}
+	text := p.Json()
+	vObserve("patch", text)
+	d, err := ReadMergeString(text)
+	vAssert(err == nil, "ReadMergeString rejected a valid merge patch")
+	r, err := vClone(t).Patch(d)
+	vAssert(err == nil, "applying a merge patch failed")
+	vObserve("result", r.Json())
+	vAssert(refEq(r, ref7386(t, p), modeList, 0), "merge patch result differs from MergePatch(target, patch)")
+	vCover("c12.deep")
 }
 
 // ref7386: RFC 7386 section 2, verbatim, on node trees (void = absent).
